@@ -254,6 +254,92 @@ def specs(tier):
     return out
 
 
+def _first_diff(a, b, p=""):
+    if isinstance(a, dict) and isinstance(b, dict):
+        for k in sorted(set(a) | set(b)):
+            r = _first_diff(a.get(k), b.get(k), p + "." + k)
+            if r:
+                return r
+        return None
+    if isinstance(a, list) and isinstance(b, list) and len(a) == len(b):
+        for i, (x, y) in enumerate(zip(a, b)):
+            r = _first_diff(x, y, p + "[%d]" % i)
+            if r:
+                return r
+        return None
+    return None if a == b else (p, a, b)
+
+
+def runner_documents(_):
+    """Documents actually written by the runner: real calls (nested invocations, batches, failures,
+    resources, partial / context arguments) on a filesystem store; every *.memento.json found on disk
+    goes through the same strict-JSON / wire-structure / decode checks."""
+    import os
+
+    import twosigma.memento as m
+    from twosigma.memento.serialization import MementoCodec
+    from twosigma.memento.storage_filesystem import FilesystemStorageBackend
+    from ..core import scratch_dir, rm
+    from ..fixtures import c10fx, c04fx
+
+    out = {"evaluations": 0, "states": 0, "transitions": 0, "traces": 0, "violations": [], "outcomes": []}
+    top = scratch_dir("c11d")
+    try:
+        st = FilesystemStorageBackend(path=os.path.join(top, "d"))
+        m.Environment.set(m.Environment(name="e", base_dir=top, repos=[m.ConfigurationRepository(name="r", clusters={"vfc": m.FunctionCluster(name="vfc", storage=st)})]))
+        plans = [[["c", 1, [["r", "u1"]]], ["b", 2, [[], [["raise"]], []]], ["x", 3, [["raise"]]]],
+                 [["cc", 1, [["c", 3, []]]], ["r", "u0"]],
+                 [["ctx", 1, [["ctx", 2, [], {"k": 3}]], None]]]
+        for p in plans:
+            try:
+                c10fx.n0(p)
+            except Exception:
+                pass
+        c10fx.n0.with_context_args({"k": 1, "j": c10fx.n3})(plans[2])
+        allv = dict(values.arg_atoms())
+        c04fx.f2.partial(allv["dt+0530"])("é")
+        c04fx.fkw(1, extra=[allv["date"], {"z": c04fx.g.partial(1)}])
+        c04fx.fk.partial(k=allv["dt-naive-us"])(0.5)
+        for dp, dn, fn in os.walk(os.path.join(top, "d", "m")):
+            if ".versions" not in dp:
+                continue
+            for f in fn:
+                if not f.endswith(".memento.json"):
+                    continue
+                out["evaluations"] += 1
+                out["states"] += 1
+                out["transitions"] += 1
+                out["traces"] += 1
+                text = open(os.path.join(dp, f)).read()
+                art = {"runner_document": text[:2000]}
+                try:
+                    doc = strict_loads(text)
+                except (NotPlainJson, ValueError) as e:
+                    out["violations"].append(("runner-doc|plain-json", "a memento written by the runner is not plain JSON: %s" % e, art))
+                    continue
+                e = check_wire(doc)
+                if e:
+                    out["violations"].append(("runner-doc|wire-format|%s" % e.split(":")[0][:50], "memento written by the runner: %s" % e, art))
+                    continue
+                try:
+                    mm = MementoCodec.decode_memento(json.loads(text))
+                    again = json.dumps(MementoCodec.encode_memento(mm))
+                    d1, d2 = json.loads(text), json.loads(again)
+                    # function dependencies are a set: compare as such
+                    for dd in (d1, d2):
+                        dd["functionDependencies"] = sorted(dd["functionDependencies"] or [], key=lambda r: json.dumps(r, sort_keys=True))
+                    if d1 != d2:
+                        where = _first_diff(d1, d2)
+                        out["violations"].append(("runner-doc|re-encode-differs|%s" % where[0].split("[")[0].split(".")[-1],
+                                                  "decode then encode of a stored memento changes the document at %s: %r -> %r" % where, art))
+                except Exception as ex:
+                    out["violations"].append(("runner-doc|decode-raised|%s" % type(ex).__name__, "decoding a stored memento raised %r" % (ex,), art))
+                out["outcomes"].append(str(hash(text)))
+    finally:
+        rm(top)
+    return out
+
+
 def run(ctx):
     ctx.rule = ("every value of the argument alphabet (depth %d) as positional / keyword / context argument; function references "
                 "plain, with positional and keyword partials (incl. non-ASCII, aware datetime, nested function reference); x "
@@ -267,6 +353,9 @@ def run(ctx):
     ctx.selfcheck("one memento round-trips identically twice", a["violations"] == b["violations"])
     chunks = pmap(memento_case, sp, chunksize=32)
     ctx.merge(chunks)
+    rd = runner_documents(None)
+    ctx.merge([rd])
+    ctx.extra["runner_written_documents"] = rd["evaluations"]
     ctx.sample({"spec": sp[0]})
     ctx.sample({"spec": sp[-1]})
     ctx.extra["mementos"] = len(sp)
